@@ -26,6 +26,19 @@ PROGRAMS = [
      [(1,), ([1, 2],), ({"k": "v"},), ("s",)]),
     ("def f(x: int):\n    while True:\n        x = x - 1\n        if x < 0:\n            break\n    return x\n", [(0,), (3,)]),
     ("def f(s: str, n: int):\n    return (s and n, s or n, not s, len(s) == n, s in ('a', 'b'))\n", [("", 0), ("a", 1), ("zz", 0)]),
+    # a narrowing condition saved in a variable, with the narrowed variable reassigned on some paths only
+    ("from typing import Union\ndef f(x: Union[int, str], flag: bool):\n    is_int = isinstance(x, int)\n    if flag:\n        x = 're'\n    if is_int:\n        return x\n    return x\n",
+     [(1, True), (1, False), ("s", True), ("s", False)]),
+    # star patterns against tuples of statically known length (minimal length included)
+    ("from typing import Tuple, Union\ndef f(x: Union[Tuple[int], Tuple[int, int], Tuple[int, int, int], Tuple[()]]):\n    match x:\n        case [first, *rest]:\n            return (x, first, rest)\n        case _:\n            return x\n",
+     [((1,),), ((1, 2),), ((1, 2, 3),), ((),)]),
+    ("from typing import Tuple, Union\ndef f(x: Union[Tuple[int], Tuple[int, int], Tuple[()]]):\n    match x:\n        case [a, b]:\n            return (x, a, b)\n        case [a]:\n            return (x, a)\n    return x\n",
+     [((1,),), ((1, 2),), ((),)]),
+    # loop else clauses, jumps inside try blocks
+    ("def f(xs: list):\n    x = 1\n    for v in xs:\n        x = 'in'\n        if v:\n            x = None\n            break\n    else:\n        y = x\n        return (x, y)\n    return x\n", [([],), ([0],), ([0, 1],)]),
+    ("def f(xs: list):\n    x = 1\n    try:\n        x = 'a'\n        for v in xs:\n            if v:\n                break\n        xs[0]\n    except IndexError:\n        return x\n    return x\n", [([],), ([0],), ([1],)]),
+    ("def f(n: int):\n    while n:\n        n = n - 1\n        y = n\n    else:\n        return n\n    return y\n", [(0,), (2,)]),
+    ("from typing import Union, Optional\ndef g() -> bool:\n    return False\ndef f(x: Union[int, str, None]):\n    if (isinstance(x, int) or g()) and g():\n        return x\n    else:\n        return x\n", [(1,), ("s",), (None,)]),
 ]
 
 KINDS = (ast.Name, ast.Subscript, ast.Call, ast.BinOp, ast.IfExp, ast.BoolOp, ast.Compare)
